@@ -125,8 +125,27 @@ class RawListener(object):
             self.stream.append(("sleep", params["s"]))
 
 
-def rig():
+def new_sequencer(where):
+    """A separately created sequencer starts with no listeners: observers attached to *other* sequencers
+    (every case of this run created its own) must not be registered with it."""
+    # every case first creates another sequencer with an observer of its own (so that the case is
+    # self-contained and replays alone), then the one it works with
+    decoy = RecSeq()
+    decoy.attach(RecObs())
     seq = RecSeq()
+    seq._decoy = decoy                     # keep it alive for the duration of the case
+    inherited = list(getattr(seq, "listeners", []))
+    if inherited:
+        engine.S.problem("Sequencer() created for %s: listeners of the new object" % where, [],
+                         ["%s attached to an earlier sequencer" % type(l).__name__ for l in inherited[:4]],
+                         detail="observers attached to one sequencer are registered with another one", tags={"what": "shared listeners"})
+        # contain the damage (else every later case notifies every observer ever attached): detach them here
+        del seq.listeners[:]
+    return seq
+
+
+def rig():
+    seq = new_sequencer("a playback case")
     o1, o2 = RecObs(), RawListener()
     seq.attach(o1)
     seq.attach(o2)
@@ -788,7 +807,7 @@ def gen_tracks(shard):
 # ---------------------------------------------------------------------------------------
 class ObsState(object):
     def __init__(self, nobs):
-        self.seq = RecSeq()
+        self.seq = new_sequencer("the observer bfs")
         self.obs = {"o1": RecObs(), "o2": RawListener()}
         if nobs >= 3:
             self.obs["o3"] = RecObs()
